@@ -33,12 +33,12 @@ Theorem c19_events_per_row : ∀ s t b c col i,
 Proof. intros. split; [by apply rw_block_offset|apply rw_list_length]. Qed.
 Print Assumptions c19_events_per_row.
 
-Theorem c19_final_value : ∀ c v o, ok (rstep c v o) = KPut → cstep c v o = Some (oval (rstep c v o)).
+Theorem c19_final_value : ∀ c v o, ok (rstep c v o) = KPut → cstep c v o = Some (ccast c (oval (rstep c v o))).
 Proof. exact rstep_put_value. Qed.
 Print Assumptions c19_final_value.
 
 Example c19_example :
-  let col := mkcol true (λ a b, match a, b with V8 x, V8 y => V8 (x + y) | _, _ => b end) (V8 0) ∅ in
+  let col := mkcol true (λ a b, match a, b with V8 x, V8 y => V8 (x + y) | _, _ => b end) (V8 0) id ∅ in
   let s0 := create_column coll0 1 col false in
   let s1 := create_computed s0 7 1 (XTrigger []) in
   let t := push_row (push (push txn0 1 (mkop KPut 5 (V8 3))) 1 (mkop KMerge 5 (V8 4))) (mkop KDelete 9 V0) in
